@@ -351,6 +351,9 @@ def check_simplify(led, uni, v, atol, key, nontriv_hint=True, agg=None):
     # property-level clause: the denoted operator moves by at most the sum of the dropped terms, each <= atol
     bound = sum(min(gabs(groups[k]), at) * groups[k][4] for k in dropped) + sum(slack(g) * g[4] for g in groups.values())
     dist = uni.den(res).dist(v.den(uni))
+    if key[1] == "simplify-list" and key[2] in ((1, 0, 4), (3, 9, 2)) and atol == 1e-3:
+        led.samples.append({"universe": uni.name, "expr": src, "contract": "equal terms merged after removing identity letters; terms with |factor| <= atol "
+                            "dropped; |den(result) - den(input)| <= sum of the dropped terms", "result": repr(res), "observed_distance": dist, "bound": bound})
     led.check(dist <= bound, f"post:{fn}:den_within_dropped", fn,
               f"{src}: |den(result) - den(input)| = {dist:.3g} > {bound:.3g} = sum of {len(dropped)} dropped terms (each <= atol={at}) + rounding",
               key + ("den",), fields, rep, nontriv)
@@ -419,6 +422,9 @@ def w_expr(case, led):
                       key, fields, rep, nontriv)
             if dR is None:
                 continue
+            if i == 7 and j == 60 and code in ("mul", "sub") and uname != "pauli2":
+                led.samples.append({"universe": uname, "expr": src, "contract": f"den(result) == den(left) {'@' if what == 'mul' else '-'} den(right) "
+                                    "as exact 8x8 matrices", "observed_distance": dR.dist(exp), "tolerance": tol, "result": repr(r)})
             n_agg += 1
             want = "Op" if (what == "mul" and a.is_op and b.is_op and code in ("mul", "Op.product", "OpSum.product")) else "OpSum"
             if kind(r) != want and agg["type"] is None:
@@ -931,6 +937,9 @@ def w_terms(case, led):
                 if ok:
                     led.check(uni.den(out).same(uni.den(flat)), f"post:{fn}:den", fn, f"check_operator_terms({src}) denotes another operator",
                               key + ("den",), fields, rep, nt)
+            if idx in ((6, 1, 11), (8, 0)) and uname == "pauli1":
+                led.samples.append({"universe": uname, "call": f"Model(...).check_operator_terms({src})", "raised": repr(raised), "result": repr(out),
+                                    "contract": "ValueError iff an item is not an Op/OpSum or has an unknown DoF; else the ravelled list without zero-factor terms"})
             after = [A.vsig(t) if (hasattr(t, "symbol") or isinstance(t, list)) else t for t in lst]
             led.check(after == before and len(lst) == len(idx), f"frame:{fn}:input", fn, f"check_operator_terms({src}) changed its argument", key + ("frame",),
                       fields, rep)
@@ -985,12 +994,6 @@ def check(run):
                 "over 11 simple symbols; 36 documented rejections; Model.check_operator_terms on all lists of <= 3 (4) items from 16. "
                 "non-trivial: products whose operand matrices do not commute, sums with non-zero value, simplifications that merge/drop/squeeze; "
                 "distinct = distinct (universe, operator, operand indices) tuples")
-    run.sample({"universe": "pauli1", "expr": "(Op('sigma_+ sigma_z', [0, 's'], -2.0, qn=[1, 0]) + Op('sigma_x', 0, 0.5)) * (Op('sigma_- I sigma_x', [0, 's', 0], (0.5-1j), qn=[-1, 0, 0]) * 1j)",
-                "contract": "den(result) == den(left) @ den(right) as exact 8x8 matrices (tolerance 8*eps*scale for the one floating-point product per term)"})
-    run.sample({"universe": "pauli2", "expr": "OpSum([Op('sigma_x I', [0, 's'], 0.5, qn=[[0, 0], [0, 0]]), Op('sigma_x', 0, -0.5, qn=[[0, 0]])]).simplify(atol=1e-12)",
-                "contract": "no exception; equal terms merged after removing identity letters; |den(result) - den(input)| <= sum of dropped terms, each <= atol"})
-    run.sample({"terms": "[OpSum([Op('sigma_x', 0, 0.5), Op('sigma_z', 's', 0.0)]), Op('sigma_x', 'nope', 0.0)]",
-                "contract": "Model.check_operator_terms raises ValueError (unknown DoF), argument unchanged"})
     run.explanation = ("Bounded stand-in only. The denotation is computed from the public fields of the result (own tokenizer, integer 2x2 letters, exact dyadic "
                        "factors, Kronecker product in a fixed DoF order) and compared with the same matrix expression of the operands' denotations; sums, "
                        "differences, negation and in-place addition must agree exactly, products/scalar multiples/quotients within 8*eps*scale per rounding. "
